@@ -225,6 +225,21 @@ def build() -> Check:
           "; ".join(under[:2]) + ": the stored exception is formatted (its __str__ / __bool__ / __len__ run) while the internal non-reentrant mutex is held - an exception "
           "whose text consults the lock deadlocks the acquirer and wedges the lock for every thread" if under else f"{n_regions} regions")
 
+    # ---- the error itself is built without unprotected user code (g2_serdes2 #2) -----------------------------------
+    # "current and future acquirers get an error": OrderedLockError. Its constructor puts the text of the holder's exception - arbitrary user code - into
+    # its message; a __str__ that returns None or raises would hand the acquirers a TypeError / whatever it raised instead
+    ole = prog.cls("exceptions", "OrderedLockError")
+    ole_init = ole.methods.get("__init__")
+    if ole_init is None:
+        raise AnalysisError("OrderedLockError.__init__ not found")
+    from sa.common import unguarded_text_conversions
+    src_params = {a.arg for a in ole_init.node.args.args[1:] if a.annotation is not None and "Exception" in ast.unparse(a.annotation)}
+    n_txt, bad_txt = unguarded_text_conversions(ole_init.node, src_params, truthiness=True)
+    ck.analysed["broken_lock_error_text_sites"] = n_txt
+    ck.ob("R4.broken-lock-error-built-without-unprotected-user-code", fn_construct(ole_init), not bad_txt,
+          "; ".join(f"line {ln}: {w}" for ln, w in bad_txt[:3]) + ": runs the holder's exception's own __str__ / __bool__ / __len__ unprotected while the error for the acquirers is "
+          "being built - if that fails, they get its TypeError / its own error instead of OrderedLockError" if bad_txt else f"{n_txt} conversion(s), {sorted(src_params)}")
+
     # ---- __exit__ -----------------------------------------------------------------------------------
     # judged on two scenarios with the arguments the interpreter protocol really passes - (None, None, None) after a normal body, and
     # (type, instance, traceback) of SOME BaseException after a body that raised. (An earlier version read "exceptional" off the path condition
